@@ -200,6 +200,8 @@ def run(ctx, name, kind, **kw):
         bits = n.bit_length()
         ks = [0, 1, -1, 2, -2, 3, n - 1, n, n + 1, 2 * n - 1, 2 * n, 2 * n + 1, 3 * n + 5, -(n - 1), -n, -(n + 1), n // 2, n // 2 + 1,
               int("aa" * ((bits + 7) // 8), 16), int("55" * ((bits + 7) // 8), 16), (1 << bits) - 1, (1 << (bits + 1)) + 1, n - 2, n + 2]
+        for sh in (0, 1, 2, 3, 8):
+            ks += [int("55" * ((bits + 7) // 8), 16) >> sh, int("aa" * ((bits + 7) // 8), 16) >> sh, -(int("55" * ((bits + 7) // 8), 16) >> sh)]
         ks += [-(3 * n + 5), -(5 * n + 1), -(6 * n + 1), -(8 * n + 1), -(n * n) + 1, -(n * n + 1), -(1 << (bits + 40)), -(1 << (2 * bits)) - 1,
                5 * n + 1, 8 * n + 3, n * n + 1, (1 << (bits + 40)) + 1, (1 << (2 * bits)) + 1]
         for j in (1, 2, 7, 8, 31, 32, 63, 64, bits - 2, bits - 1, bits):
@@ -231,7 +233,8 @@ def run(ctx, name, kind, **kw):
                 if nm.startswith("fresh"):
                     o = PointJacobi(cfp, G[0], G[1], 1, n, generator=True) if nm == "freshG" else lib.mk_jac(cfp, G, rng.randrange(2, p), n, True)
                 check_mul(ctx, dom, cfp, o, P, k, cls, "%s|%s|%s" % (fam, nm, kclass(k, n)), False, fam, deep=(i % 5 == 0))
-            if i % 4 == kw["si"] % 4:
+            alt = bin(abs(k)).count("01") + bin(abs(k)).count("10") > bits - 8     # 0x55.. / 0xAA.. patterns: 3k sits just below a power of two
+            if i % 4 == kw["si"] % 4 or alt:
                 lo = Point(cfp, Pm[0], Pm[1], n if i % 8 else None)
                 kk = k if abs(k) < 8 * n else k % n
                 check_mul(ctx, dom, cfp, lo, Pm, kk, "prod.legacy", "%s|%s" % (fam, kclass(kk, n)), False, fam)
